@@ -26,7 +26,7 @@ import (
 	"github.com/CrowdStrike/csproto"
 	"google.golang.org/protobuf/encoding/protowire"
 
-	"verif/harness/internal/tr"
+	"verif/harness/tr"
 )
 
 var (
